@@ -25,6 +25,7 @@ from golem.core.optimisers.genetic.gp_params import GPAlgorithmParameters
 from golem.core.optimisers.genetic.operators.base_mutations import MutationStrengthEnum
 from golem.core.optimisers.genetic.operators import base_mutations as bm
 from golem.core.optimisers.genetic.operators import crossover as cx
+from golem.core.dag.linked_graph import LinkedGraph
 from golem.core.optimisers.graph import OptGraph, OptNode
 from golem.core.optimisers.opt_node_factory import DefaultOptNodeFactory, OptNodeFactory
 from golem.core.optimisers.optimization_parameters import GraphRequirements
@@ -109,7 +110,39 @@ def mutation_function(name):
 # ----------------------------------------------------------------------------------------
 # graphs
 # ----------------------------------------------------------------------------------------
-def build(par, labels, share='none'):
+class JournalledGraph(LinkedGraph):
+    """user storage class: registers ITS OWN method as the postprocess_nodes hook and points back to itself"""
+
+    def __init__(self, nodes=(), postprocess_nodes=None):
+        self.changes = 0
+        self.me = self
+        super().__init__(nodes, postprocess_nodes=self._on_change)
+
+    def _on_change(self, graph, nodes):
+        self.changes += 1
+
+
+class BackrefOptGraph(OptGraph):
+    """user OptGraph subclass: its storage calls back a bound method of the owner, which points to itself"""
+
+    def __init__(self, nodes=()):
+        self.touched = 0
+        super().__init__(nodes, postprocess_nodes=self._touch)
+        self.owner = self
+
+    def _touch(self, graph, nodes):
+        self.touched += 1
+
+
+def new_graph(gclass):
+    if gclass == 'journal':
+        return OptGraph(delegate_cls=JournalledGraph)
+    if gclass == 'optsub':
+        return BackrefOptGraph()
+    return OptGraph()
+
+
+def build(par, labels, share='none', gclass='plain'):
     """par[i] = positions of the parents of node i (order kept); nodes listed in position order.
     share = 'ctor' / 'setter': a node whose parent set equals that of a node built before it gets that
     node's LIVE nodes_from handed to its constructor / to its nodes_from setter (OptNode copies it into
@@ -136,7 +169,7 @@ def build(par, labels, share='none'):
             nodes[i] = OptNode(labels[i], nodes_from=[nodes[p] for p in par[i]])
             if par[i]:
                 donors.setdefault(key, i)
-    g = OptGraph()
+    g = new_graph(gclass)
     g.nodes = list(nodes)
     return g
 
@@ -358,7 +391,7 @@ def run_mutation_case(spec):
     fn = spec['fn']
     random.seed(spec['seed'])
     frng = random.Random(spec['seed'] * 7919 + 13)
-    g = build(spec['par'], spec['labels'], spec.get('share', 'none'))
+    g = build(spec['par'], spec['labels'], spec.get('share', 'none'), spec.get('gclass', 'plain'))
     reg = Reg()
     gb = [reg.r(n) for n in g.nodes]
     hb = reg.heap()
@@ -381,6 +414,10 @@ def run_mutation_case(spec):
     f = mutation_function(fn)
     raised = None
     res = None
+    if spec.get('reseed'):
+        # a resumed, re-seeded session: `random` is put back to the state the graph was built under;
+        # node identifiers must not depend on it (they come from uuid4 / os.urandom)
+        random.seed(spec['seed'])
     try:
         res = guarded(lambda: f(g, requirements=req, graph_gen_params=ggp, parameters=params))
     except Exception as ex:  # "without raising"
@@ -519,7 +556,7 @@ def infer_mutation(spec, reg, fac, adv, gb, hb, ga, ha, parents_b, uid_ref, res)
 def make_second(spec, g1):
     rel = spec['rel']
     if rel == 'ind':
-        return build(spec['par2'], spec['labels2'], spec.get('share', 'none'))
+        return build(spec['par2'], spec['labels2'], spec.get('share', 'none'), spec.get('gclass', 'plain'))
     g2 = deepcopy(g1)
     if rel == 'mutcopy':
         random.seed(spec['seed'] + 1)
@@ -535,8 +572,14 @@ def make_second(spec, g1):
 
 def run_crossover_case(spec):
     fn = spec['fn']
-    g1 = build(spec['par'], spec['labels'], spec.get('share', 'none'))
-    g2 = make_second(spec, g1)
+    if spec.get('reseed'):
+        random.seed(spec['seed'])
+    g1 = build(spec['par'], spec['labels'], spec.get('share', 'none'), spec.get('gclass', 'plain'))
+    try:
+        g2 = make_second(spec, g1)
+    except Exception as ex:   # copy.deepcopy of a valid input graph failed: the harness cannot prepare the relative
+        return None, {'raised': None, 'changed': False, 'n': len(g1.nodes), 'cands': None,
+                      'copy_failed': '%s: %s' % (type(ex).__name__, str(ex)[:80])}
     if not py_wellformed(g2):
         # the built-in mutation that prepared the relative returned a broken graph: that is a C17
         # violation by itself (the mutation stream reports it too); crossovers are not run on it
@@ -551,7 +594,10 @@ def run_crossover_case(spec):
     f = getattr(cx, fn)
     raised = None
     try:
-        r1, r2 = guarded(lambda: f(g1, g2, max_depth=spec['md']))
+        if spec.get('inplace') is False:
+            r1, r2 = guarded(lambda: f(g1, g2, max_depth=spec['md'], inplace=False))
+        else:
+            r1, r2 = guarded(lambda: f(g1, g2, max_depth=spec['md']))
     except Exception as ex:
         raised = '%s: %s' % (type(ex).__name__, str(ex)[:120])
     info = {'raised': raised, 'changed': False, 'n': len(b1) + len(b2)}
@@ -566,7 +612,8 @@ def run_crossover_case(spec):
         info['changed'] = a1 != b1 or a2 != b2 or any(ha[r] != hb[r] for r in b1 + b2)
         info['dup_uid'] = any(len({n.uid for n in r.nodes}) != len(r.nodes) for r in (r1, r2))
         try:
-            cands = infer_crossover(fn, b1, b2, hb, a1, a2, ha, parents_b)
+            # inplace=False works on copies: only the oracle is evaluated on them
+            cands = None if spec.get('inplace') is False else infer_crossover(fn, b1, b2, hb, a1, a2, ha, parents_b)
         except Exception as ex:   # fails closed (an empty candidate list is a disagreement)
             cands = []
             info['inference_failed'] = '%s: %s' % (type(ex).__name__, ex)
@@ -668,6 +715,7 @@ def mutation_spec(rng, fn, par, labels=None):
             'md': rng.randint(1, 6), 'min_ar': rng.randint(1, 2), 'max_ar': rng.randint(2, 4), 'ntypes': ntypes,
             'none_p': none_p, 'advice': advice, 'attempts': rng.choice([1, 3, 100]), 'rgf': rgf,
             'strength': rng.choice(['weak', 'mean', 'strong']), 'share': rng.choice(['none', 'ctor', 'setter']),
+            'gclass': rng.choice(['plain', 'plain', 'journal', 'optsub']), 'reseed': rng.random() < 0.4,
             'seed': rng.randrange(1 << 30)}
 
 
@@ -706,6 +754,8 @@ def crossover_spec(rng, fn, par, par2=None):
     k = rng.randint(1, 3)
     spec = {'fn': fn, 'par': par, 'labels': random_labels(rng, len(par), k), 'rel': rel, 'md': rng.randint(1, 6),
             'share': rng.choice(['none', 'ctor', 'setter']),
+            'gclass': rng.choice(['plain', 'plain', 'journal', 'optsub']), 'reseed': rng.random() < 0.4,
+            'inplace': (False if fn == 'subtree_crossover' and rng.random() < 0.4 else None),
             'seed': rng.randrange(1 << 30), 'premut': rng.choice(['single_change', 'single_edge', 'single_add',
                                                                    'single_drop', 'tree_growth'])}
     if rel == 'ind':
@@ -728,6 +778,9 @@ def evaluate(ctx, group, kind, specs):
     terms, metas, term_of = [], [], {}
     for spec in specs:
         term, info = (run_mutation_case if kind == 'mut' else run_crossover_case)(spec)
+        if term is None and info.get('copy_failed'):
+            ctx.error(group, 'copy.deepcopy of a valid input graph raised %s (spec %r)' % (info['copy_failed'], spec))
+            continue
         if term is None:
             ctx.count(group, key=repr(sorted(spec.items())), nontrivial=False, fn=spec['fn'], premutation='ill-formed')
             ctx.violate(group, {'kind': kind, 'spec': spec, 'info': info},
